@@ -36,6 +36,18 @@ pub broadcast group group_f64 {
 }
 pub use ax_f64::*;
 
+// ---- bool `&` / `|` (non-short-circuit): total, equal to && / || ------------------------------------------
+pub mod ax_bool {
+use super::*;
+#[verifier::external_body]
+pub broadcast proof fn axiom_bool_bitand(a: bool, b: bool)
+    ensures #[trigger] a.bitand_req(b), <bool as BitAndSpec>::obeys_bitand_spec(), a.bitand_spec(b) == (a && b) {}
+#[verifier::external_body]
+pub broadcast proof fn axiom_bool_bitor(a: bool, b: bool)
+    ensures #[trigger] a.bitor_req(b), <bool as BitOrSpec>::obeys_bitor_spec(), a.bitor_spec(b) == (a || b) {}
+}
+pub use ax_bool::*;
+
 pub assume_specification[ f64::floor ](a: f64) -> (r: f64) ensures r == f64_floor(a);
 pub assume_specification[ f64::round ](a: f64) -> (r: f64) ensures r == f64_round(a);
 pub assume_specification[ f64::fract ](a: f64) -> (r: f64) ensures r == f64_fract(a);
@@ -119,3 +131,7 @@ pub assume_specification<F: core::str::FromStr>[ str::parse::<F> ](s: &str) -> (
 // `[T]::contains`, `str::contains(&String)`
 pub assume_specification<T: PartialEq>[ <[T]>::contains ](s: &[T], x: &T) -> (r: bool)
     ensures T::obeys_eq_spec() ==> r == (exists|j: int| 0 <= j < s@.len() && #[trigger] s@[j].eq_spec(x));
+
+// `i128::checked_neg` (vstd specifies checked_add/sub/mul/div/rem but not checked_neg)
+pub assume_specification[ i128::checked_neg ](a: i128) -> (r: Option<i128>)
+    ensures r == (if a == i128::MIN { None::<i128> } else { Some((-a) as i128) });
